@@ -1,8 +1,21 @@
 /-
-  Orb.Conc — the concurrency model for C19: a shared read-only structure `T` and any number of
-  threads, each with its own private state, interleaved by an arbitrary schedule.  A thread's step
-  may READ the shared structure but can only WRITE its own state — this frame condition is what the
-  regenerated write-set facts (`Generated/Writes.lean`) tie to the Go code.
+  Orb.Conc — the concurrency model for C19: a shared structure `T` and any number of threads, each
+  with its own private state, interleaved by an arbitrary schedule (sequentially consistent
+  interleaving of atomic steps; the Go memory model is NOT formalised).
+
+  Two kinds of step:
+   * `step`  : a thread READS the shared structure and rewrites only its own state.  Here the frame
+               condition is built into the type (`f : T → S → S`), so theorems about `step`/`run`
+               say nothing about whether the Go code writes the tree.
+   * `stepW` : a thread's step returns a NEW shared structure as well (`f : T → S → T × S`): a query
+               that caches something in the tree, reuses a heap stored in the tree, … is expressible.
+               The frame condition is then a real hypothesis (`FrameOn`), and it is false for such
+               queries (see `OrbProofs/C19.lean`, `frame_condition_is_needed`).
+
+  The abstract query machine (`Instr`, `Thread`, `instrStep`) refines a query into a sequence of
+  write instructions; WHERE a write lands (private memory of the thread / the shared memory) is a
+  tag on the instruction, WHAT it writes is an arbitrary function of everything the thread can read.
+  `OrbProofs/C19.lean` ties the tags to the write table regenerated from the Go source.
 -/
 namespace Orb.Conc
 
@@ -35,5 +48,54 @@ def answerStep {T Q A : Type} (answer : T → Q → A) (t : T) (s : QState Q A) 
   match s.todo with
   | [] => s
   | q :: rest => ⟨rest, s.done ++ [answer t q]⟩
+
+/-! ### steps that may write the shared structure -/
+
+/-- thread `i` takes one step that may also WRITE the shared structure -/
+def stepW {T S : Type} (f : T → S → T × S) (s : Sys T S) (i : Nat) : Sys T S :=
+  { tree := (f s.tree (s.st i)).1
+    st := fun j => if j = i then (f s.tree (s.st i)).2 else s.st j }
+
+/-- run a schedule of writing steps -/
+def runW {T S : Type} (f : T → S → T × S) (s : Sys T S) : List Nat → Sys T S
+  | [] => s
+  | i :: rest => runW f (stepW f s i) rest
+
+/-- The frame condition, relative to an invariant `P` of thread states: a step taken from a state
+    satisfying `P` leaves the shared structure as it is and re-establishes `P`. -/
+def FrameOn {T S : Type} (P : S → Prop) (f : T → S → T × S) : Prop :=
+  ∀ t s, P s → (f t s).1 = t ∧ P (f t s).2
+
+/-! ### the abstract query machine -/
+
+/-- where a write lands -/
+inductive Target where
+  | priv      -- memory only this thread can reach (locals, per-call allocations, the caller's buffer)
+  | shared    -- memory other threads can reach (the tree, package-level state, unknown)
+deriving DecidableEq, Repr
+
+/-- One write instruction.  The written value is an arbitrary function of the shared memory and of
+    the thread's private memory (reads are unrestricted). -/
+structure Instr (Sh Pr : Type) where
+  target : Target
+  updPriv : Sh → Pr → Pr
+  updShared : Sh → Pr → Sh
+
+def Instr.exec {Sh Pr : Type} (ins : Instr Sh Pr) (sh : Sh) (pr : Pr) : Sh × Pr :=
+  match ins.target with
+  | .priv => (sh, ins.updPriv sh pr)
+  | .shared => (ins.updShared sh pr, pr)
+
+/-- a thread: the write instructions it still has to execute and its private memory -/
+structure Thread (Sh Pr : Type) where
+  prog : List (Instr Sh Pr)
+  mem : Pr
+
+/-- one step of a thread: execute its next write instruction (interleaving is per instruction, not
+    per query) -/
+def instrStep {Sh Pr : Type} (sh : Sh) (th : Thread Sh Pr) : Sh × Thread Sh Pr :=
+  match th.prog with
+  | [] => (sh, th)
+  | ins :: rest => ((ins.exec sh th.mem).1, ⟨rest, (ins.exec sh th.mem).2⟩)
 
 end Orb.Conc
